@@ -1091,8 +1091,8 @@ theorem runChecks_spec {vts : List TypeDef} (hd : Distinct vts) (hc : FieldsClea
     have := hc t ht f hf
     simp only [Field.clean, Bool.and_eq_true, List.all_eq_true] at this
     have := this.2 a ha
-    simp only [Arg.clean, Bool.and_eq_true] at this
-    exact this.1
+    simp only [Arg.clean] at this
+    exact this
   obtain ⟨e2, h2, h2'⟩ := checkNarrowing_spec hd.1 hshallow
   obtain ⟨e4, h4, h4'⟩ := checkInvariants_spec vts q.name hc
   obtain ⟨e5, h5, h5'⟩ := checkRoot_spec q (hc q hq)
